@@ -54,6 +54,8 @@ def build_X(xs, n, nonneg=False, d=None):
     kind = xs.get("xkind", "normal")
     if kind == "grid":  # ties and duplicated rows
         X = rs.randint(-2, 3, size=(n, d)).astype(float)
+    elif kind == "huge":  # badly scaled / un-centred but legal: factor up to 1000, offsets up to 5000
+        X = rs.randn(n, d) * rs.choice([50.0, 1000.0]) + rs.choice([0.0, 100.0, 5000.0])
     elif kind == "scaled":
         X = rs.randn(n, d) * rs.choice([0.01, 1.0, 30.0]) + rs.choice([0.0, 5.0])
     else:
